@@ -402,6 +402,16 @@ class PyExcMarker:
         self.exc = exc
 
 
+def make_native_exc(cls, msg):
+    """a real exception instance of class cls (for native stubs of raising contracts)"""
+    for args in ((msg,), ("utf-8", b"\xff", 0, 1, msg), ("utf-8", "\udc80", 0, 1, msg), ()):
+        try:
+            return cls(*args)
+        except Exception:
+            continue
+    return RuntimeError(msg)
+
+
 def raised_log(I):
     return getattr(I, "override_raises", [])
 
